@@ -203,6 +203,10 @@ func vh_leader_apply() {
 func vh_gate() {
 	w := 3
 	r, env := vNewRaft("L", vRaftOpts{n: 2, w: w, shaped: true})
+	if vTier() == 0 {
+		// quick tier: one log shape (the gate does not depend on it); thorough: all shapes
+		vAssume(r.lastSnapshotIndex == vBase() && env.logs.low == vBase()+1 && env.logs.high == vBase()+2)
+	}
 	vAssume(vInvBasic(r, env))
 	vAssume(vInvLog(r, env, w))
 	vMakeLeader(r, "L", 0)
